@@ -305,4 +305,19 @@ def r6(F, R):
     roles.check_field_faithful_clone(F, R, "runner::basic::Basic", "runner")
 
 
-RULES = [("R6", r6, None), ("R1", r1, None), ("R2", r2, None), ("R3", r3, None), ("R4", r4, None), ("R5", r5, None)]
+def r7(F, R):
+    """`--retry`, `--retry-after`, `--retry-tag-filter`, `--concurrency`, `--fail-fast` given through `with_cli()` reach the runner:
+    every later Cucumber builder call and `clone()` carries the options over (path tables of the builder methods / Clone impl)."""
+    roles.check_builders_keep_cli(F, R)
+    roles.check_clone_faithful_table(F, R, "cucumber::Cucumber", "clone-faithful")
+    R.floor(20)
+
+
+def r8(F, R):
+    """The retry tag filter is evaluated as an ordinary boolean formula over the inherited tags (C15.R2's operator table of
+    `TagOperation::eval`): a `not` over a scenario without tags is true."""
+    from . import c15
+    c15.r2(F, R)
+
+
+RULES = [("R6", r6, None), ("R1", r1, None), ("R2", r2, None), ("R3", r3, None), ("R4", r4, None), ("R5", r5, None), ("R7", r7, None), ("R8", r8, None)]
